@@ -607,13 +607,15 @@ func (f *fragment) row(rowID uint64) *Row {
 // (updating the cache).
 func (f *fragment) unprotectedRow(rowID uint64) *Row {
 	r, ok := f.rowCache.Fetch(rowID)
-	if ok && r != nil {
-		return r
+	if !ok || r == nil {
+		r = f.rowFromStorage(rowID)
+		f.rowCache.Add(rowID, r)
 	}
 
-	row := f.rowFromStorage(rowID)
-	f.rowCache.Add(rowID, row)
-	return row
+	// Hand out a row of the caller's own over the cached data. Its
+	// segments are marked read-only, so a write to it (or to a row derived
+	// from it) first takes a copy and never reaches the cache.
+	return r.readOnlyCopy()
 }
 
 // rowFromStorage clones a row data out of fragment storage and returns it as a
